@@ -291,6 +291,21 @@ theorem wf_refTo (D : Defs) (name : String) (h : (lookup ("#/definitions/" ++ na
     wfDraft4 D (refTo name) = true := by
   simp [refTo, wfDraft4, wfKws, kw, wfNode, kwOf, kwOfStr, keyIs, h]
 
+/-- the element-position wrapper `{"anyOf": [s, {"type": "null"}]}` of a well-formed schema is well-formed -/
+theorem c08_wf_elemWrap (D : Defs) (f : FieldDecl) (s : PyVal) (h : wfDraft4 D s = true) :
+    wfDraft4 D (elemWrap f s) = true := by
+  unfold elemWrap
+  split
+  · cases s with
+    | dict kvs =>
+      simp only []
+      have hn : wfDraft4 D nullSchema = true := by
+        simp [nullSchema, wfDraft4, wfKws, kw, wfNode, kwOf, kwOfStr, wfLeaf, simpleType]
+      refine wf_listKw D "anyOf" (Or.inl rfl) _ (by simp) ?_
+      simp [wfList, h, hn]
+    | _ => exact h
+  · exact h
+
 /-! ### the induction -/
 
 theorem wfList_of (D : Defs) : ∀ ss : List PyVal, (∀ s ∈ ss, wfDraft4 D s = true) → wfList D ss = true
@@ -298,6 +313,9 @@ theorem wfList_of (D : Defs) : ∀ ss : List PyVal, (∀ s ∈ ss, wfDraft4 D s 
   | s :: ss, h => by
     simp only [wfList, and_true_iff']
     exact ⟨h s (by simp), wfList_of D ss (fun t ht => h t (by simp [ht]))⟩
+
+theorem emitLW_isEmpty (fx : Bool) (fs : List FieldDecl) : (emitLW fx fs).isEmpty = fs.isEmpty := by
+  cases fs <;> simp [emitLW]
 
 theorem emitL_isEmpty (fx : Bool) (fs : List FieldDecl) : (emitL fx fs).isEmpty = fs.isEmpty := by
   cases fs <;> simp [emitL]
@@ -333,33 +351,35 @@ theorem wf_field (D : Defs) : ∀ f : FieldDecl, wfFragF f = true → RefsResolv
     simp only [wfFragF, and_true_iff'] at hf
     simp only [RefsResolve] at hrf
     simp only [emit]
-    exact wf_arrKws D sz true (some (emit true f)) (fun ctx => wf_itemsSingle D ctx _ (wf_field D f hf.2 hrf))
+    exact wf_arrKws D sz true (some (elemWrap f (emit true f)))
+      (fun ctx => wf_itemsSingle D ctx _ (c08_wf_elemWrap D f _ (wf_field D f hf.2 hrf)))
   | .seqPos _ fs addl sz, hf, hrf => by
     simp only [wfFragF, and_true_iff'] at hf
     simp only [RefsResolve] at hrf
     simp only [emit]
-    refine wf_arrKws D sz addl (some (.list (emitL true fs))) (fun ctx => wf_itemsList D ctx _ ?_ ?_)
-    · rw [emitL_isEmpty]; simpa using hf.1.2
-    · exact wfList_of D _ (wf_list D fs hf.2 hrf)
+    refine wf_arrKws D sz addl (some (.list (emitLW true fs))) (fun ctx => wf_itemsList D ctx _ ?_ ?_)
+    · rw [emitLW_isEmpty]; simpa using hf.1.2
+    · exact wfList_of D _ (wf_listW D fs hf.2 hrf)
   | .setAny _ sz, _, _ => by
     simp only [emit]; exact wf_setKws D sz none (fun _ => rfl)
   | .setOf _ f sz, hf, hrf => by
     simp only [wfFragF] at hf
     simp only [RefsResolve] at hrf
     simp only [emit]
-    exact wf_setKws D sz (some (emit true f)) (fun ctx => wf_itemsSingle D ctx _ (wf_field D f hf hrf))
+    exact wf_setKws D sz (some (elemWrap f (emit true f)))
+      (fun ctx => wf_itemsSingle D ctx _ (c08_wf_elemWrap D f _ (wf_field D f hf hrf)))
   | .tupleOf f u, hf, hrf => by
     simp only [wfFragF] at hf
     simp only [RefsResolve] at hrf
     simp only [emit]
-    exact wf_arrKws D { uniq := u } true (some (emit true f))
-      (fun ctx => wf_itemsSingle D ctx _ (wf_field D f hf hrf))
+    exact wf_arrKws D { uniq := u } true (some (elemWrap f (emit true f)))
+      (fun ctx => wf_itemsSingle D ctx _ (c08_wf_elemWrap D f _ (wf_field D f hf hrf)))
   | .tuplePos fs u, hf, hrf => by
     simp only [wfFragF, and_true_iff'] at hf
     simp only [RefsResolve] at hrf
     simp only [emit]
-    refine wf_tupKws D u (emitL true fs) ?_ (wfList_of D _ (wf_list D fs hf.2 hrf))
-    rw [emitL_isEmpty]; simpa using hf.1
+    refine wf_tupKws D u (emitLW true fs) ?_ (wfList_of D _ (wf_listW D fs hf.2 hrf))
+    rw [emitLW_isEmpty]; simpa using hf.1
   | .mapAny sz, _, _ => by
     simp only [emit]
     exact wf_mapKws D none none sz (fun _ h => by cases h)
@@ -367,8 +387,8 @@ theorem wf_field (D : Defs) : ∀ f : FieldDecl, wfFragF f = true → RefsResolv
     simp only [wfFragF, and_true_iff'] at hf
     simp only [RefsResolve] at hrf
     simp only [emit]
-    refine wf_mapKws D (some k) (some (emit true v)) sz ?_
-    intro s hs; cases hs; exact wf_field D v hf.2 hrf
+    refine wf_mapKws D (some k) (some (elemWrap v (emit true v))) sz ?_
+    intro s hs; cases hs; exact c08_wf_elemWrap D v _ (wf_field D v hf.2 hrf)
   | .struct c fields defaults, hf, hrf => by
     simp only [wfFragF, and_true_iff'] at hf
     obtain ⟨⟨⟨hreq, hnd⟩, hdef⟩, hfp⟩ := hf
@@ -441,6 +461,17 @@ theorem wf_list (D : Defs) : ∀ fs : List FieldDecl, wfFragL fs = true → Refs
     rcases List.mem_cons.mp h with rfl | h'
     · exact wf_field D f hf.1 hrf.1
     · exact wf_list D fs hf.2 hrf.2 s h'
+
+theorem wf_listW (D : Defs) : ∀ fs : List FieldDecl, wfFragL fs = true → RefsResolveL D fs →
+    ∀ s ∈ emitLW true fs, wfDraft4 D s = true
+  | [], _, _, s, h => by simp [emitLW] at h
+  | f :: fs, hf, hrf, s, h => by
+    simp only [wfFragL, and_true_iff'] at hf
+    simp only [RefsResolveL] at hrf
+    simp only [emitLW] at h
+    rcases List.mem_cons.mp h with rfl | h'
+    · exact c08_wf_elemWrap D f _ (wf_field D f hf.1 hrf.1)
+    · exact wf_listW D fs hf.2 hrf.2 s h'
 
 theorem wf_opt (D : Defs) : ∀ fs : List FieldDecl, wfFragOpt fs = true → RefsResolveL D fs →
     ∀ f ∈ fs, isNoneF f = false → wfDraft4 D (emit true f) = true
